@@ -605,7 +605,11 @@ func parseValue(p *cfgPrimitive, opts *options, str string, parseCfg parse.Confi
 		return newString(p.ctx, p.meta(), v), nil
 	}
 
-	sub, err := normalize(opts, ifc)
+	// the settings parsed from the text come from where the text came from,
+	// not from the call that happens to evaluate it
+	nopts := *opts
+	nopts.meta = p.meta()
+	sub, err := normalize(&nopts, ifc)
 	if err != nil {
 		return nil, err
 	}
